@@ -1,6 +1,7 @@
 #!/usr/bin/env python3
 """Rewrite the generated regions of DESIGN.md (between <!-- BEGIN:x --> and <!-- END:x -->):
 seeds    — one row per seeded change in seeded/<id>/meta.json
+seedstats — per seeding round: how many were caught at once / after strengthening
 findings — one row per entry of known_findings.json / known_findings.d/*.json"""
 import glob, json, os, re
 here = os.path.dirname(os.path.dirname(os.path.abspath(__file__)))
@@ -16,6 +17,24 @@ def seeds():
             str(m.get('needs_to_manifest', '')).replace('|', '/').replace('\n', ' ')[:220],
             c.get('check', ''), c.get('detected_by_check', ''),
             (': ' + c.get('note', '').replace('|', '/')) if c.get('note') else ''))
+    return '\n'.join(rows)
+
+
+def seedstats():
+    rnd = {'a': 1, 'b': 1, 'c': 2, 'd': 2, 'e': 3, 'f': 3, 'g': 4, 'h': 4, 'i': 5, 'j': 5}
+    tab = {}
+    for d in sorted(glob.glob(os.path.join(here, 'seeded', '*'))):
+        m = json.load(open(os.path.join(d, 'meta.json')))
+        r = rnd.get(os.path.basename(d).split('-')[-1], 0)
+        det = m.get('confirmed_by_main', {}).get('detected_by_check', '?')
+        t = tab.setdefault(r, {'yes': 0, 'after-strengthening': 0, 'superseded': 0, 'other': 0})
+        t[det if det in t else 'other'] += 1
+    rows = ['| round | seeded changes kept | caught by the check as it was | caught after strengthening the check | caught by another property's check | superseded by a repair of ReBench |', '|---|---|---|---|---|---|']
+    for r in sorted(tab):
+        t = tab[r]
+        rows.append('| %d | %d | %d | %d | %d | %d |' % (r, sum(t.values()), t['yes'], t['after-strengthening'], t['other'], t['superseded']))
+    tot = {k: sum(t[k] for t in tab.values()) for k in ('yes', 'after-strengthening', 'superseded', 'other')}
+    rows.append('| all | %d | %d | %d | %d | %d |' % (sum(tot.values()), tot['yes'], tot['after-strengthening'], tot['other'], tot['superseded']))
     return '\n'.join(rows)
 
 
@@ -57,7 +76,7 @@ def status():
 
 p = os.path.join(here, 'DESIGN.md')
 s = open(p).read()
-for name, fn in (('seeds', seeds), ('findings', findings), ('status', status)):
+for name, fn in (('seeds', seeds), ('seedstats', seedstats), ('findings', findings), ('status', status)):
     pat = re.compile(r'(<!-- BEGIN:%s -->\n).*?(<!-- END:%s -->)' % (name, name), re.S)
     if pat.search(s):
         s = pat.sub(lambda m: m.group(1) + fn() + '\n' + m.group(2), s)
